@@ -85,7 +85,7 @@ class Lane:
         self.include = tuple(include)     # further spec directories (a model that INSTANCEs a model of another family)
 
 
-def graph_cases(gl, lane, max_edges_per_dut=400000):
+def graph_cases(gl, lane, max_edges_per_dut=400000, cap_per_dut=None):
     """all edges of the complete graphs of an accepted GraphLoop run, projected on the modelled registers.
     -> list of dict(spec, m, reset, cases=[[r, iv, o, r2], ...])"""
     out = []
@@ -115,7 +115,12 @@ def graph_cases(gl, lane, max_edges_per_dut=400000):
                     break
             if len(cases) >= max_edges_per_dut:
                 break
-        out.append({"spec": g.spec, "m": m, "reset": pr[0], "cases": cases, "nstates": len(g.states)})
+        total = len(cases)
+        if cap_per_dut and total > cap_per_dut:
+            # quick tier: every k-th edge of the complete graph (deterministic stride); the thorough tier judges all
+            stride = -(-total // cap_per_dut)
+            cases = cases[::stride]
+        out.append({"spec": g.spec, "m": m, "reset": pr[0], "cases": cases, "nstates": len(g.states), "edges_total": total})
     return out
 
 
